@@ -41,6 +41,8 @@ type Gen struct {
 
 	rejOps []opLine // rejected candidate assignments, as correspondence ops
 
+	rejFlowOps []opLine // whole function bodies of rejected candidates (`case func … -> reject`, flowtie.go)
+
 	conds []cond // simple comparisons guarding the block under construction
 }
 
@@ -517,6 +519,12 @@ func (g *Gen) accepted() bool {
 			g.recordReject(src, err)
 		case "rej:cannot-prove":
 			g.recordRejectedAssert(src, err)
+		}
+	}
+	if err != nil && len(g.rejFlowOps) < 3 {
+		switch cls {
+		case "rej:not-within-bounds", "rej:shift-arg", "rej:div-arg", "rej:bitwise-arg", "rej:inconsistent-fact", "rej:cannot-prove", "rej:unreachable":
+			g.recordRejectedFunc(src, err)
 		}
 	}
 	return err == nil
